@@ -322,6 +322,24 @@ func (w *World) locksetFunc(fn *ssa.Function, g *guardInfo) []*Obligation {
 			// objects owned by a guarded container of the receiver
 			switch t := ins.(type) {
 			case *ssa.UnOp:
+				// whole-object copy (x := *p) of an object with owner-guarded slice/map fields: the copy carries the live
+				// slice headers out of the object, so the backing arrays end up shared with whoever gets the copy
+				if pt, ok := t.X.Type().Underlying().(*types.Pointer); ok && t.Op == token.MUL {
+					if stT, ok := pt.Elem().Underlying().(*types.Struct); ok && !isFreshBase(t.X) {
+						for i := 0; i < stT.NumFields(); i++ {
+							cls := fieldClass(pt.Elem(), i)
+							ow, owned := g.owner[cls]
+							if !owned || recvType != ow[0] {
+								continue
+							}
+							switch stT.Field(i).Type().Underlying().(type) {
+							case *types.Slice, *types.Map:
+								ok2 := w.noProductionCallers(fn)
+								report(ins, cls, "the value to stay inside the object (copy the elements instead)", cur, "whole-object copy carrying the live guarded slice/map", ok2)
+							}
+						}
+					}
+				}
 				if fa, ok := t.X.(*ssa.FieldAddr); ok && t.Op == token.MUL {
 					if cls, need, ok := ownerNeed(fa); ok {
 						_, held := cur[need]
